@@ -45,6 +45,12 @@ class C24(Check):
         for k, (kind, terms) in enumerate(self.configs()):
             for n in range(0, 130 if self.tier == "quick" else 260, step if k else 1):
                 out.append({"kind": kind, "terms": terms, "n": n})
+        # the group had been run and cancelled before (restart of the same group object): whatever the first run left behind in the
+        # terminal objects must not spoil the clean-up of the second
+        for k in (0, 3):
+            kind, terms = self.configs()[k]
+            for n in range(0, 130 if self.tier == "quick" else 260, 1 if self.tier == "thorough" or k == 0 else 2):
+                out.append({"kind": kind, "terms": terms, "n": n, "prior": 40 + 7 * (n % 9)})
         for n in [1, 2, 3, 5, 8]:   # n = 0 would cancel the task before its coroutine ever runs (no await point reached)
             out.append({"kind": "proc", "terms": [], "n": n})
         # the other half of a process-based group: the cyclic loop its subprocess runs sees the parent's stop request (the
@@ -152,6 +158,21 @@ class C24(Check):
                     evlog.append(("frame",))
                 return real_rp(packet, index)
             rig.ec.roundtrip, rig.ec.roundtrip_packet = rec_rt, rec_rp
+            if case.get("prior"):
+                task = sg.start()
+                for _ in range(case["prior"]):
+                    await asyncio.sleep(0)
+                task.cancel()
+                try:
+                    await asyncio.wait_for(task, 60)
+                except BaseException:      # noqa
+                    pass
+                del evlog[:]
+                nlog = len(kernel.log)
+                if fast:
+                    # a fast group object cannot be started twice (its program is generated once): a new group over the same terminals
+                    sg = FastSyncGroup(rig.ec, [Dev(t, s["rw"]) for t, s in zip(rig.terms, case["terms"])])
+                    sg.cycletime = 0
             task = sg.start()
             for _ in range(case["n"]):
                 await asyncio.sleep(0)
@@ -262,6 +283,7 @@ class C24(Check):
         return ("slow and fast sync groups over 2-3 simulated terminals (FMMU / direct, read-write / read-only, different start states, 3 or exactly 2 FMMUs) cancelled after n = 0..129 "
                 "event-loop iterations (every iteration for the first configuration, every second otherwise; thorough: every one up to 259) - this covers "
                 "every await of start-up and the first cycles; wait_for_process cancelled after 0..8 iterations; the cyclic loop a process-based group's "
+                "the first slow and the first fast configuration also as a RESTART (the same slow group object / a new fast group over the same terminals had run for 40-96 iterations and been cancelled before); "
                 "subprocess runs, with the shared running flag cleared after n iterations, with and without all cyclic frames lost from then on; non-trivial = OPERATIONAL had been requested")
 
     def distribution(self, cases, observed):
@@ -274,7 +296,8 @@ class C24(Check):
         return d
 
     def describe(self, case):
-        return {"kind": case["kind"], "terms": case["terms"], "n": case["n"], **({"lose": case["lose"]} if "lose" in case else {})}
+        return {"kind": case["kind"], "terms": case["terms"], "n": case["n"], **({"lose": case["lose"]} if "lose" in case else {}),
+                **({"prior": case["prior"]} if "prior" in case else {})}
 
 
 CHECK = C24
